@@ -13,6 +13,7 @@ from __future__ import annotations
 
 import ast
 
+from ..callgraph import positional_args
 from ..cfg import cfg_of
 from ..core import META, Ctx, RuleResult, rule
 from ..dataflow import dataflow_of
@@ -214,13 +215,16 @@ def c04_2(ctx: Ctx) -> RuleResult:
 @rule(P)
 def c04_3(ctx: Ctx) -> RuleResult:
     res = RuleResult("C04.3", "DOM", "the division by the number of successes is guarded: all-failed ensembles end with TOO_FEW_REALIZATIONS, not ZeroDivisionError")
-    f = cvar_kernel(ctx)
+    k_ = cvar_kernel(ctx)
     n = 0
-    for nd in nodes_in(f, (ast.BinOp, ast.AugAssign)):
-        if isinstance(nd.op, (ast.Div, ast.FloorDiv, ast.Mod)):
-            before = len(res.instances)
-            check_division(ctx, res, f, nd, nd.right if isinstance(nd, ast.BinOp) else nd.value)
-            n += len(res.instances) - before
+    # the kernel and the private functions of its module it is split into
+    region = [k_] + [g for g in ctx.cg.reachable([k_], include_nested_values=False) if g is not k_ and g.module is k_.module and g.cls is None and g.name.startswith("_")]
+    for f in region:
+        for nd in nodes_in(f, (ast.BinOp, ast.AugAssign)):
+            if isinstance(nd.op, (ast.Div, ast.FloorDiv, ast.Mod)):
+                before = len(res.instances)
+                check_division(ctx, res, f, nd, nd.right if isinstance(nd, ast.BinOp) else nd.value)
+                n += len(res.instances) - before
     for i in res.instances:
         i.rule = "C04.3"
     if n == 0:
@@ -249,8 +253,9 @@ def c04_4(ctx: Ctx) -> RuleResult:
             ct = X.at(g, c_)
             farg = None
             fi = [i for i, p in enumerate(f.positional) if "failed" in p]
-            if fi and fi[0] < len(ct[2]):
-                farg = ct[2][fi[0]]
+            pa_ = positional_args(f, ct)
+            if fi and fi[0] < len(pa_):
+                farg = pa_[fi[0]]
             raw = [("param", g.qualname, p) for p in g.params if p not in ("self",)]
             ok3 = (
                 farg is not None and farg[0] == "call" and farg[1] == G("numpy.isnan") and farg[2]
@@ -394,7 +399,7 @@ def c04_5(ctx: Ctx) -> RuleResult:
         raise AnalysisError("expected an objective and a constraint flavour calling the CVaR kernel")
     for f, c in sites:
         t = X.at(f, c)
-        key = t[2][0]
+        key = positional_args(k, t)[0]
         is_con = any("constraint" in p for p in f.params)
         vp = ("param", f.qualname, [p for p in f.params if p != "self"][0])
 
